@@ -153,7 +153,7 @@ theorem gg_mkVariant (us : List Ty) (h : ∀ u ∈ us, GenGood cfg sfh u) : GenG
 
 theorem gg_leaf (t : Ty) (h : match t with
     | .any | .undef | .dflt | .scalar | .scalarData | .numeric | .data | .richData | .str | .bin | .int _ | .float _ _ | .bool _
-    | .tspan _ | .tstamp _ | .strSz _ | .strVal _ | .pattern _ | .regexp _ | .coll _ | .object _ => True
+    | .tspan _ | .tstamp _ | .strSz _ | .strVal _ | .pattern _ | .regexp _ | .runtime _ _ _ | .coll _ | .object _ => True
     | _ => False) : GenGood cfg sfh t := by
   cases t <;> simp only [] at h <;> (first | contradiction | simp [GenGood, Ty.WF, Ty.TA])
 
@@ -182,6 +182,7 @@ theorem gg_gen : ∀ (n : Nat) (t : Ty), t.w ≤ n → GenGood cfg sfh t → Gen
     | strVal s => simp only [generalize, genericType]; exact ⟨gg_leaf cfg sfh _ trivial, gt⟩
     | pattern rs => simp only [generalize, genericType]; exact ⟨gg_leaf cfg sfh _ trivial, gt⟩
     | regexp s => simp only [generalize, genericType]; exact ⟨gg_leaf cfg sfh _ trivial, gt⟩
+    | runtime rt nm pt => simp only [generalize, genericType]; exact ⟨gg_leaf cfg sfh _ trivial, gg_leaf cfg sfh _ trivial⟩
     | tspan r => simp only [generalize, genericType]; exact ⟨gg_leaf cfg sfh _ trivial, gt⟩
     | tstamp r => simp only [generalize, genericType]; exact ⟨gg_leaf cfg sfh _ trivial, gt⟩
     | object p => simp only [generalize, genericType]; exact ⟨gg_leaf cfg sfh _ trivial, gt⟩
@@ -328,6 +329,10 @@ theorem gen_asg_var (hl : ∀ s, (cfg.lower s).length = s.length) : ∀ (n : Nat
     | regexp s =>
       simp only [generalize, genericType]
       exact ⟨viaR cfg sfh rfl (by unfold asgRecv; simp), self⟩
+    | runtime rt nm pt =>
+      have : asg cfg sfh (.runtime "" "" none) (.runtime rt nm pt) = true :=
+        viaR cfg sfh rfl (by rw [recv_runtime_eq]; exact rtAcc_default rt nm pt)
+      simp only [generalize, genericType]; exact ⟨this, this⟩
     | tspan r =>
       unfold Ty.GenOKV at gt
       simp only [generalize, genericType]
